@@ -276,6 +276,15 @@ pub fn run(args: &Args) -> i32 {
                             run.violation(case_sig(c, d, p, &what), msg, json!({"engine":"c19","complete_at":c,"ok":ok,"duration":d,"first_poll":p}));
                         }
                     }
+                    // the future changes hands: polled once with one waker (at t=0, or at t=1), then awaited by a task
+                    // with another waker — the deadline must wake whoever polled last
+                    for first in [0u64, 1] {
+                        evaluations += 1;
+                        let (_, _, viols) = timeout_case_lag(c, ok, Duration::from_millis(d * UNIT_MS), first, Some(first), 7000 + evaluations as u32).await;
+                        for (what, msg) in viols {
+                            run.violation(format!("{} waker-changes", case_sig(c, d, first, &what)), format!("{msg}; the future was polled once at t={first} with one waker and then awaited with another"), json!({"engine":"c19","complete_at":c,"ok":ok,"duration":d,"first_poll":first,"lag":first}));
+                        }
+                    }
                     // a caller that polls once at t=0 and is then busy until just after the deadline
                     {
                         evaluations += 1;
